@@ -9,9 +9,10 @@ import gc
 import pickle
 import warnings
 
-from traits.api import (Any, Constant, DelegatesTo, Dict, Event, HasTraits,
-                        Instance, Int, List, Map, Property, ReadOnly, Set,
-                        Str, TraitError, UUID, cached_property, observe)
+from traits.api import (Any, ComparisonMode, Constant, DelegatesTo, Dict,
+                        Event, HasTraits, Instance, Int, List, Map,
+                        Property, PrototypedFrom, ReadOnly, Set, Str,
+                        TraitError, UUID, cached_property, observe)
 
 from props import lattice as L
 from props.c01_domain import owner_class
@@ -69,6 +70,8 @@ class Owner14(HasTraits):
     nodes = List(Instance(Node14))
     kd = Dict(Instance(Node14), Int, copy="deep")
     uid = UUID(can_init=True)
+    #: prototyped from node.value; a local override must survive copying
+    pval = PrototypedFrom("node", prefix="value")
     total = Property(Int, observe="xs.items")
 
     @cached_property
@@ -102,7 +105,7 @@ EVENTS = [
     ("node_new",), ("node_value",), ("node_share",), ("node_tags",),
     ("tr_set",), ("ro_set",), ("mp_set",), ("refl_set",), ("shn_set",),
     ("dpn_set",), ("nodes_append",), ("nodes_share",), ("read_total",),
-    ("kd_set_new",), ("kd_set_node",),
+    ("kd_set_new",), ("kd_set_node",), ("pval_set",),
 ]
 
 
@@ -120,7 +123,7 @@ def enabled(o, ev):
     if k == "st_discard":
         return 1 in d.get("st", ())
     if k in ("node_value", "node_share", "node_tags", "nodes_share",
-             "kd_set_node"):
+             "kd_set_node", "pval_set"):
         return d.get("node") is not None
     if k == "ro_set":
         from traits.api import Undefined
@@ -178,6 +181,8 @@ def apply(o, ev):
         o.nodes.append(o.node)
     elif k == "read_total":
         o.total
+    elif k == "pval_set":
+        o.pval = 42
     elif k == "kd_set_new":
         o.kd[Node14(value=8)] = 1
     elif k == "kd_set_node":
@@ -218,7 +223,8 @@ def state_of(o):
     ro = o.ro
     return {n: plain(getattr(o, n)) for n in NAMES if n != "ro"} | \
         {"ro": "<unset>" if ro is Undefined else plain(ro), "mp_": o.mp_,
-         "total": o.total}
+         "total": o.total,
+         "pval": o.pval if o.node is not None else "<no prototype>"}
 
 
 def containers(o):
@@ -386,11 +392,13 @@ class Defs(HasTraits):
     ro = ReadOnly
     ro5 = ReadOnly(5)
     an = Any
+    an_none = Any(comparison_mode=ComparisonMode.none)
+    an_ident = Any(comparison_mode=ComparisonMode.identity)
     uu = UUID
 
 
 SPECIAL = ["p_plain", "p_valid", "p_ro", "dlg", "ev", "evi", "k", "ro",
-           "ro5", "an"]
+           "ro5", "an", "an_none", "an_ident"]
 ROUND = ["pickle%d" % p for p in range(6)] + ["copy", "deepcopy"]
 SCRIPT_VALUES = ["i1", "i2", "sa", "None", "f1.5", "True", "t(1,a)", "l[1]",
                  "A0", "fnan", "i3", "sab", "f0.5", "fn", "clsB"]
@@ -439,6 +447,8 @@ def script(ct):
         except Exception as e:
             trace.append(("exc", type(e).__name__))
     rec(lambda: h.add_trait("x", ct))
+    calls = []
+    h.on_trait_change(lambda: calls.append(1), "x")
     rec(lambda: h.x)
     for lbl in SCRIPT_VALUES:
         v = L.value(lbl)
@@ -448,8 +458,15 @@ def script(ct):
     rec(lambda: h.x)
     rec(lambda: setattr(h, "x", 1))
     rec(lambda: setattr(h, "x", 2))
+    n0 = len(calls)
+    same = [2]
+    rec(lambda: setattr(h, "x", same))     # an unequal value,
+    rec(lambda: setattr(h, "x", same))     # the identical object again,
+    rec(lambda: setattr(h, "x", [2]))      # an equal but distinct one
+    trace.append(("notifications", len(calls) - n0))
     rec(lambda: h.x)
     rec(lambda: h.parent.value)
+    trace.append(("notifications-total", len(calls)))
     return trace
 
 
